@@ -391,6 +391,10 @@ func runSrvScenario(sc srvScenario, scn int, res *hx.Result) []srvEvent {
 	r.cond = sync.NewCond(&r.mu)
 	r.uniform = scn%2 == 1
 	cli, srv := gconn.Pair(0)
+	if sc.Paced {
+		// replies back up in the server's writer until the client reads them (one byte of pipe), requests flow freely
+		cli, srv = gconn.PairAsym(0, 1)
+	}
 	ctx, cancel := context.WithCancel(context.Background())
 	defer cancel()
 
